@@ -17,7 +17,8 @@ RULE = (
     "growing and shrinking workspaces; the project-document write of the v1->v2 migration. Each write is executed "
     "once in a forked child to record its file-system steps (audited calls + every write() on files opened for "
     "writing); it is then re-executed once per step with the process killed (os._exit, nothing flushed) before the "
-    "step, and for every write() step with torn prefixes of 0, 1, half and all-but-one bytes. After each crash the "
+    "step, and for every write() step with torn prefixes of 0, 1, half and all-but-one bytes (thorough: every prefix of "
+    "writes up to 300 bytes, 16 evenly spaced prefixes plus page / pipe-buffer boundaries of larger ones). After each crash the "
     "parent (which never ran the write) parses the target raw and through a fresh signac handle: it must be complete "
     "and equal old or new, with at most one stray temp file beside it. Reader/writer: a reader process is stepped "
     "at every position between the writer's FS steps by the process scheduler. The P-atomic policy (target never "
@@ -264,7 +265,14 @@ def run_case(ctx, case):
             continue
         plans.append(("crash", st["k"]))
         if st["kind"] == "write":
-            for n in faultrun.torn_sizes(st["len"]):
+            if ctx.quick:
+                sizes = faultrun.torn_sizes(st["len"])
+            elif st["len"] <= 300:
+                sizes = list(range(st["len"]))  # every prefix
+            else:
+                sizes = sorted(set(faultrun.torn_sizes(st["len"])) | {st["len"] * j // 16 for j in range(1, 16)} | {4095, 4096, 4097, 8192, 65535, 65536})
+                sizes = [n for n in sizes if n < st["len"]]
+            for n in sizes:
                 plans.append(("torn", st["k"], n))
     plans = [p for j, p in enumerate(plans) if j % case["nparts"] == case["part"]]
     for j, plan in enumerate(plans):
